@@ -87,6 +87,12 @@ def lit_tokens(av):
     raise ValueError(k)
 
 
+import re as _re
+from cklgen import syntax as _syntax
+BAREWORD = _re.compile(r"[a-z][a-z0-9_]*")
+NOT_BARE = set(_syntax.KEYWORDS) | set(getattr(_syntax, "CONTEXTUAL", [])) | {"e", "pi", "stdout", "stdin", "args", "true", "false", "null"}
+
+
 class Renderer:
     def __init__(self, style=None, paren_p=0.0, semi_p=0.0):
         self.r = style
@@ -250,6 +256,13 @@ class Renderer:
                 ka = self.e(a, 0)
                 if a[0] == "var":
                     ka = ["identity", "("] + ka + [")"]     # a bare identifier key would be read as a string
+                elif (self.paren_p and a[0] == "lit" and a[1][0] == "str" and BAREWORD.fullmatch(a[1][1] or "")
+                      and a[1][1] not in NOT_BARE and self.r.random() < 0.35):
+                    # the documented shorthand: a bare word in key position is that string; redundant parentheses
+                    # around it change nothing
+                    ka = [a[1][1]]
+                    if self.r.random() < 0.5:
+                        ka = ["("] + ka + [")"]
                 out += ka + ["=>"] + self.e(b, 0)
             return out + [">>>"]
         if k == "obj":
